@@ -46,3 +46,14 @@ From RS Require Import SchedObs InvStmts InvFacts.
 Theorem C09_exact_meaning : forall nw o, stmt_exact_meaning nw o.
 Proof. exact exact_meaning. Qed.
 Print Assumptions C09_exact_meaning.
+
+(** Schedule level, for ALL finite histories of public modifications of the model (Schedule.v, which is compared
+    line by line with the implementation on every generated history): the cached maintenance violation and the
+    cached unserved passengers of every reachable schedule equal their recomputed values. *)
+From RS Require Import Transition Schedule SchedInv SchedViolFacts SchedUnservedFacts.
+Theorem C09_reachable_violation_exact : forall nw, stmt_reachable_viol nw.
+Proof. exact reachable_viol. Qed.
+Print Assumptions C09_reachable_violation_exact.
+Theorem C09_reachable_unserved_exact : forall nw, stmt_reachable_unserved nw.
+Proof. exact reachable_unserved. Qed.
+Print Assumptions C09_reachable_unserved_exact.
